@@ -61,6 +61,14 @@ Scopes(r) == {Copies[i].scope : i \in {i \in DOMAIN Copies : Copies[i].rel = r /
 PublicScope(r) == IF "all" \in Scopes(r) THEN "all" ELSE "plain"
 OwnScope(r) == IF "own" \in Scopes(r) THEN "own" ELSE "plain"
 
+DupTuples(sq) == { t \in ToSet(sq) : Cardinality({i \in DOMAIN sq : sq[i] = t}) > 1 }
+\* every tuple of D is an own tuple of one age and, in the other age, only an inherited one
+InheritedOnly(st, r, D) ==
+  /\ "all" \in Scopes(r)
+  /\ \A t \in D :
+        \/ t \in Base(st, r, "new", "own") /\ t \in Base(st, r, "old", "all") \ Base(st, r, "old", "own")
+        \/ t \in Base(st, r, "old", "own") /\ t \in Base(st, r, "new", "all") \ Base(st, r, "new", "own")
+
 CopiesBad(st) ==
   LET O == Obs(st) IN
   UNION { LET c == Copies[i] IN
@@ -71,7 +79,10 @@ CopiesBad(st) ==
                ELSE (IF CopyRows(st, c) = { Proj(t, c.eqs, c.order) : t \in { t \in Base(st, c.rel, c.age, c.scope) : Pattern(t, c.eqs) } } THEN {}
                      ELSE {"diagonal copy " \o c.field \o " is not the restriction of the relation to its pattern"})
         : i \in DOMAIN Copies }
-  \cup UNION { UNION { (IF Base(st, r, "new", s) \cap Base(st, r, "old", s) = {} THEN {} ELSE {"a tuple of " \o r \o " is both new and old"}) : s \in Scopes(r) }
+  \cup UNION { UNION { (IF Base(st, r, "new", s) \cap Base(st, r, "old", s) = {} THEN {}
+                         ELSE IF s = "all" /\ InheritedOnly(st, r, Base(st, r, "new", s) \cap Base(st, r, "old", s))
+                              THEN {"a tuple of " \o r \o " is own in one age and inherited in the other"}
+                              ELSE {"a tuple of " \o r \o " is both new and old"}) : s \in Scopes(r) }
                \cup (IF Base(st, r, "new", PublicScope(r)) \cup Base(st, r, "old", PublicScope(r)) = O.tup[r] THEN {}
                      ELSE {"iter_" \o r \o " disagrees with the index copies"})
                \cup (IF Base(st, r, "new", OwnScope(r)) \cup Base(st, r, "old", OwnScope(r)) \subseteq O.tup[r] THEN {}
@@ -113,7 +124,9 @@ QueriesBad(st, rels) ==
 CanonBad(st) ==
   LET O == Obs(st) IN
   (IF \A r \in Rels : \A t \in O.tup[r] : CanonBy(O, r, t) = t THEN {} ELSE {"an iterator yields a non-canonical element"})
-  \cup (IF \A r \in Rels : NoDupSeq(st.tup[r]) THEN {} ELSE {"an iterator yields a tuple twice"})
+  \cup UNION { IF NoDupSeq(st.tup[r]) THEN {}
+               ELSE IF InheritedOnly(st, r, DupTuples(st.tup[r])) THEN {"iter_" \o r \o " yields an own tuple again as an inherited tuple of the other age"}
+               ELSE {"iter_" \o r \o " yields a tuple twice"} : r \in Rels }
   \cup (IF \A T \in Types : NoDupSeq(st.it[T]) /\ ToSet(st.it[T]) = ORoots(O)[T] THEN {} ELSE {"iter_<type> is not exactly one representative per class"})
   \cup QueriesBad(st, Rels)
   \cup CopiesBad(st)
